@@ -1607,8 +1607,12 @@ impl AnnotationStore {
                     dataset.cmp(dataset2)
                 }
                 //some canonical ordering for selectors
-                (Selector::TextSelector(..), _) => Ordering::Less,
-                (_, Selector::TextSelector(..)) => Ordering::Greater,
+                (Selector::TextSelector(..) | Selector::AnnotationSelector(_, Some(_)), _) => {
+                    Ordering::Less
+                }
+                (_, Selector::TextSelector(..) | Selector::AnnotationSelector(_, Some(_))) => {
+                    Ordering::Greater
+                }
                 (Selector::ResourceSelector(..), _) => Ordering::Less,
                 (_, Selector::ResourceSelector(..)) => Ordering::Greater,
                 (Selector::DataSetSelector(..), _) => Ordering::Less,
